@@ -1,6 +1,7 @@
 import Pathrs.Replay
 import Pathrs.Discipline
 import Pathrs.Capi
+import Pathrs.Kernel.World
 
 /-!
 # Model driver: reads harness transcripts on stdin, replays each case through
@@ -389,6 +390,90 @@ def judge (c : Case) : String :=
               s!"case {c.id} CLOSES model={modelCl} impl={implCloses}"
             else s!"case {c.id} ok steps={steps} res={got}"
 
+
+/-! ## The kernel specification evaluated on the generated tree (validates `World.kresolve`
+against the live kernel's raw `openat2` answer recorded by the harness) -/
+
+structure TEntry where
+  kind : String
+  path : Bytes
+  target : Bytes := []
+  hard : Nat := 0
+deriving Inhabited
+
+def parseEntry : List String → Option TEntry
+  | ["l", p, _, t] => do pure { kind := "l", path := ← unhex p, target := ← unhex t }
+  | ["h", p, _, i] => do pure { kind := "h", path := ← unhex p, hard := ← i.toNat? }
+  | [k, p, _] => do pure { kind := k, path := ← unhex p }
+  | _ => none
+
+def specId (label : Nat) : Fd := 4 + 2 * (label : Int)
+
+/-- the world of a generated tree: the root is label 0, entry `i` label `i+1`, a hard link is
+the object of its first name -/
+def specWorld (ents : List TEntry) : World :=
+  let arr := ents.toArray
+  let entOf (fd : Fd) : Option TEntry :=
+    if fd < 6 ∨ fd % 2 ≠ 0 then none else arr[((fd - 6) / 2).toNat]?
+  let idOfPath (p : Bytes) : Option Fd :=
+    if p = [] then some 4 else
+    match ents.findIdx? (fun e => e.path = p) with
+    | none => none
+    | some i => match ents[i]? with
+      | some e => if e.kind = "h" then some (specId e.hard) else some (specId (i + 1))
+      | none => none
+  let pathOf (fd : Fd) : Option Bytes :=
+    if fd = 4 then some [] else (entOf fd).map (·.path)
+  { root := 4
+    kind := fun fd =>
+      if fd = 4 then .dir else
+      match entOf fd with
+      | some e => if e.kind = "d" then .dir else if e.kind = "l" then .lnk else .other
+      | none => .other
+    child := fun d n =>
+      match pathOf d with
+      | some dp => idOfPath (if dp = [] then n else dp ++ Path.slash :: n)
+      | none => none
+    parent := fun fd =>
+      match pathOf fd with
+      | some p =>
+        let comps := Path.splitSlash p
+        (idOfPath (Path.joinSlash comps.dropLast)).getD 4
+      | none => 4
+    body := fun fd => match entOf fd with | some e => e.target | none => []
+    dpath := fun fd => (pathOf fd).map fun p => if p = [] then [] else Path.splitSlash p
+    rootComps := []
+    procMnt := 0
+    kernelLinks := 41 }
+
+def judgeSpec (c : Case) : String :=
+  let go (nofollow : Bool) (p : String) (wantBody : Bool) : String :=
+    match unhex p, c.tree.mapM parseEntry, c.kern with
+    | some path, some ents, _ :: _ =>
+      if path.contains 0 then s!"spec {c.id} skip nul" else
+      let w := specWorld ents
+      let rflags := ((cfgVal c "rflags").bind String.toNat?).getD 0
+      let cfg : World.Cfg := { nofollow, noSymlinks := hasAll rflags RESOLVE_NO_SYMLINKS, maxLinks := w.kernelLinks }
+      let got : String := match World.resolveInRoot w cfg path with
+        | .error e => s!"err {e}"
+        | .ok o =>
+          if wantBody then
+            (if w.kind o = .lnk then s!"ok bytes {hex (w.body o)}" else "err notlink")
+          else s!"ok label={(o - 4) / 2}"
+      let want : String := match c.kern with
+        | ["err", e] => s!"err {e}"
+        | "ok" :: "bytes" :: b :: _ => s!"ok bytes {b}"
+        | "ok" :: "fd" :: rest => s!"ok label={(kvVal rest "label").getD "?"}"
+        | other => s!"? {other}"
+      if want = "err 36" then s!"spec {c.id} skip nametoolong"
+      else if got = want ∨ (got = "err notlink" ∧ (want = "err 22" ∨ want = "err 2")) then s!"spec {c.id} ok {got}"
+      else s!"spec {c.id} DIFF spec={got} kernel={want}"
+    | _, _, _ => s!"spec {c.id} skip nokern"
+  match c.op with
+  | ["resolve", nf, p] => go (nf = "1") p false
+  | ["readlink", p] => go true p true
+  | _ => s!"spec {c.id} skip op"
+
 partial def readCases (h : IO.FS.Stream) (cur : Case) (inAfter : Bool) (pendingCall : Option Call)
     (emit : Case → IO Unit) : IO Unit := do
   let line ← h.getLine
@@ -468,3 +553,4 @@ def main : IO Unit := do
     | _ =>
       IO.println (judge c)
       IO.println (judgeDisc c)
+      IO.println (judgeSpec c)
